@@ -157,6 +157,15 @@ pub uninterp spec fn d_abs(d: Duration) -> Duration;
 #[verifier::external_body] pub fn s_subsec_nanos(d: Duration) -> (r: i32) ensures r == d_subsec_nanos(d), -1_000_000_000 < r < 1_000_000_000 { unimplemented!() }
 #[verifier::external_body] pub fn s_subsec_millis(d: Duration) -> (r: i32) ensures r == d_subsec_millis(d), -1000 < r < 1000 { unimplemented!() }
 #[verifier::external_body] pub fn s_abs(d: Duration) -> (r: Duration) ensures r == d_abs(d) { unimplemented!() }
+// ---- str::parse of the numeric types (std): the number a text spells, None when it is not one (uninterpreted) ----------------------
+pub uninterp spec fn parse_i64(s: Seq<char>) -> Option<i64>;
+pub uninterp spec fn parse_u64(s: Seq<char>) -> Option<u64>;
+pub uninterp spec fn parse_f64(s: Seq<char>) -> Option<f64>;
+#[verifier::external_body] pub struct NumParseError { _p: u8 }
+#[verifier::external_body] pub fn s_parse_i64(s: &String) -> (r: Result<i64, NumParseError>) ensures (match parse_i64(s@) { Some(v) => r is Ok && r->Ok_0 == v, None => r is Err }) { unimplemented!() }
+#[verifier::external_body] pub fn s_parse_u64(s: &String) -> (r: Result<u64, NumParseError>) ensures (match parse_u64(s@) { Some(v) => r is Ok && r->Ok_0 == v, None => r is Err }) { unimplemented!() }
+#[verifier::external_body] pub fn s_parse_f64(s: &String) -> (r: Result<f64, NumParseError>) ensures (match parse_f64(s@) { Some(v) => r is Ok && r->Ok_0 == v, None => r is Err }) { unimplemented!() }
+#[verifier::external_body] pub fn s_conv_msg(arg: &String) -> (r: String) { unimplemented!() }       // text of an error message
 pub mod helpers_mod { }
 // ---- chrono-tz: the zone a name denotes, and the same instant seen in a zone ------------------------------------------------------
 #[verifier::external_body] pub struct TzParseError { _p: u8 }
@@ -237,6 +246,16 @@ def build():
         'bytes#1': A(ret='r', ensures=[('identity', 'r == CelValue::Bytes(arg)')], method_table=TABLE, props=('C14', 'C01')),
     })
     U.raw('}', 'end file module')
+    def from_text(kind, ty, k):
+        return A(ret='r', ensures=[('the_number_std_reads_from_exactly_this_text_or_an_error', f'(match parse_{ty}(arg@) {{ Some(v) => r is Ok && r->Ok_0 == v, None => r is Err }})')],
+                 rewrites=[(f'arg.parse::<{ty}>()', f's_parse_{ty}(&arg)', 'R2m: str::parse -> trampoline over the uninterpreted std parser (which text is handed to it is what is pinned)'),
+                           ('&format!("int conversion invalid for \\"{}\\"", arg)', '&s_conv_msg(&arg)', 'R2: format! (text of an error message) -> trampoline'),
+                           ('|_|', '|_e|', 'Verus does not accept the `_` pattern as a closure parameter')],
+                 method_table=TABLE, props=('C14', 'C01'))
+    for kind, ty, k in (('int', 'i64', 4), ('uint', 'u64', 4), ('double', 'f64', 4)):
+        U.raw(f'pub mod {kind}_type {{ use super::*;', 'file module')
+        U.extract(f'rscel/src/context/type_funcs/{kind}_type.rs', 'mod methods', qual_prefix=f'{kind}_type', fns={f'{kind}#{k}': from_text(kind, ty, k)})
+        U.raw('}', 'end file module')
     sz = lambda who, what: A(ret='r', ensures=[('element_count', f'r == {what}')], method_table=TABLE, props=('C06', 'C15', 'C01'))
     U.raw('pub mod size { use super::*;', 'file module')
     U.extract(DFS + 'size.rs', 'mod methods', qual_prefix='size', fns={
